@@ -423,6 +423,7 @@ func runC18(r *core.Run) {
 	}
 	r.WatchProgress(false) // this process only waits for its workers (each has its own deadline)
 	c18FirstOpHistories(r)
+	c18EditHistories(r)
 	n := core.Workers()
 	results := make([]c18Result, n)
 	var wg sync.WaitGroup
